@@ -3,6 +3,8 @@
 import json, sys
 pid, workdir = sys.argv[1], sys.argv[2]
 variant = sys.argv[3] if len(sys.argv) > 3 else ""
+if variant.startswith("@"):
+    variant = json.load(open(variant[1:]))[pid]
 p = {json.loads(l)['id']: json.loads(l) for l in open('/verif/properties.jsonl')}[pid]
 print(f"""You are helping test a verification tool by seeding a realistic regression into a Rust project.
 
